@@ -78,3 +78,34 @@ def heappop(eng, args, kwargs, st, node):
     st.assume(bag(new) == z3.Store(bag(old), mv, z3.Select(bag(old), mv) - 1))
     write_through(st, l)
     yield m, st
+
+
+# ----------------------------------------------------------------------------- utils.keyify
+# keyify(*args) / keyify(seq): the sorted tuple of its arguments (3-line body: list copy, list.sort (A6), tuple()).
+# Modelled exactly for statically known lengths <= 4 by a sorting network of min/max.
+@external('keyify')
+def keyify(eng, args, kwargs, st, node):
+    if len(args) == 1:
+        v = eng.lift(args[0])
+        if isinstance(v, SV) and v.t.kind in ('tuple', 'list'):
+            v = unpack(st, v.e, v.t)
+        if isinstance(v, TupV):
+            items = list(v.items)
+        elif isinstance(v, Ref) and isinstance(st.store[v.id], ListC) and z3.is_int_value(z3.simplify(st.store[v.id].n)):
+            c = st.store[v.id]
+            items = [unpack(st, z3.Select(c.arr, i), c.t.args[0]) for i in range(z3.simplify(c.n).as_long())]
+        else:
+            raise OutOfSubset('keyify of a sequence of unknown length')
+    else:
+        items = list(args)
+    xs = [eng.num(x, st, node)[0] for x in items]
+    if len(xs) > 4:
+        raise OutOfSubset('keyify of more than 4 items')
+    xs = list(xs)
+    # bubble network
+    for i in range(len(xs)):
+        for j in range(len(xs) - 1 - i):
+            a, b = xs[j], xs[j + 1]
+            xs[j], xs[j + 1] = z3.If(a <= b, a, b), z3.If(a <= b, b, a)
+    eng.externals_used.add('utils.keyify (sorted tuple of its arguments)')
+    yield TupV([SV(INT, z3.simplify(x)) for x in xs]), st
